@@ -619,9 +619,13 @@ Definition body (k : kont) : M unit :=
             && c_group (s_cf s) && is_some (s_lp s) && negb (oz_eqb (s_lp s) (s_lc s))
     then rec KCommitAndStop             (* 366-373: more was processed while that commit was under way: commit it *)
     else
-    upd (set_shutd false) ;;;                                                      (* 353 / 364 *)
-    rec KStop ;;;                                                                  (* 354 / 365 *)
-    upd (set_shutting false) ;;;                                                   (* 355 / 366 *)
+    (* since 7d0d3e7 the code clears _shuttingdown BEFORE stop() (consumer.py:377-378 / 390-391) so that an application
+       callback of the start Deferred fired by stop() may start the consumer again (F-C13-7); stop() never reads the flag and
+       everything it triggers is guarded by _stopping, so without such callbacks (outside the model) the order is
+       unobservable: same outputs, same state at the end.  The model keeps the earlier order (proofs of C02 depend on it). *)
+    upd (set_shutd false) ;;;                                                      (* 374 / 389 *)
+    rec KStop ;;;                                                                  (* 378 / 391 *)
+    upd (set_shutting false) ;;;                                                   (* 377 / 390 *)
     if s_shutd s then
       s' <- get ;;
       emit_shutd (match fk with None => OShutD true (encv (s_lp s')) (s_lc s') | Some k => OShutD false k (s_lc s') end)   (* 356 / 367 *)
